@@ -32,6 +32,8 @@ CFG = DC.Config("C01", D.ALL_KINDS, make_cmds, nsets=(9, 24), big=True,
 
 CFG.fm_text_residues = [31, 0, 1, 30, 63 % 32, 15, 31]
 
+CFG.probe = True   # regenerated obligations on the probe arithmetic widths + large nearly-full tables
+
 
 def check(run, tier, seed, replay):
     run.assumptions = ["string lengths and counts below 2^32 (the iterator reports lengths as uint)",
